@@ -289,6 +289,10 @@ impl SecondaryStorage {
     }
 
     pub(super) async fn drop_table_inner(&self, table_id: TableRefId) -> StorageResult<()> {
+        // Keep compaction (and deletes) of this table out while its RowSets are dropped,
+        // otherwise both would remove the same RowSets.
+        let _guard = self.txn_mgr.lock_for_deletion(table_id.table_id).await;
+
         let mut changeset = vec![];
 
         let entry = DropTableEntry { table_id };
